@@ -179,6 +179,16 @@ Definition h_drop (l : list tval) : H unit := fun h =>
 Definition h_read (tv : tval) : H (option block) :=
   match snd tv with VInl _ => hret None | VPtr a => b <- h_get a ;; hret (Some b) end.
 
+(* Clone for ThunkData (and ThunkData::map): the copy of a thunk's data is a new independent thunk,
+   never born black-holed or locked.  Other payloads are copied as they are. *)
+Definition unblackhole (s : tstate) : tstate := match s with Blackholed => Suspended | x => x end.
+Definition copy_shape (sh : shape) : shape :=
+  match sh with
+  | SStd s _ => SStd (unblackhole s) false
+  | SRev s _ c => SRev (unblackhole s) false c
+  | SData d => SData d
+  end.
+
 (* ValueBlockRc::make_unique / content_make_mut::make_mut / Rc::make_mut: count 1 -> in place;
    otherwise strong_clone (clone of the payload: every kid +1, fresh block with count 1) and the
    old handle is dropped by the assignment *)
@@ -190,7 +200,7 @@ Definition h_make_unique (tv : tval) : H tval :=
     if N.eqb (b_rc b) 1 then hret tv
     else
       h_clone_all (b_kids b) ;;;
-      tv' <- h_alloc (fst tv) (b_tag b) (b_shape b) (b_kids b) ;;
+      tv' <- h_alloc (fst tv) (b_tag b) (copy_shape (b_shape b)) (b_kids b) ;;
       h_drop [tv] ;;;
       hret tv'
   end.
@@ -202,7 +212,7 @@ Definition h_strong_clone (tv : tval) : H tval :=
   | VPtr a =>
     b <- h_get a ;;
     h_clone_all (b_kids b) ;;;
-    h_alloc (fst tv) (b_tag b) (b_shape b) (b_kids b)
+    h_alloc (fst tv) (b_tag b) (copy_shape (b_shape b)) (b_kids b)
   end.
 
 (* how a write reaches the payload:
@@ -866,7 +876,9 @@ Definition step (o : op) : M out :=
            | [] => ret ODone
            end
          else
-           tv' <~ lift (h_alloc KValue TThunk sh (snd p)) ;;
+           (* revthunk_as_explicit_fun returns the data of a standard thunk unchanged: moved out
+              when this was the only handle, a copy (ThunkData::clone) otherwise *)
+           tv' <~ lift (h_alloc KValue TThunk (if snd (fst p) then sh else copy_shape sh) (snd p)) ;;
            push_root tv' ;;~ ret ODone
          end
        | l' => lift (h_drop l') ;;~ ret OSkip
@@ -878,11 +890,11 @@ Definition step (o : op) : M out :=
         q <- h_clone_grandkids tv ;;
         rc <- h_alloc KRc TRcClosure (SData 0) q ;;
         p <- h_clone_kids tv (fun _ kids => tl kids) ;;
-        tv' <- h_alloc KThunk TThunk (match fst p with SRev st _ c => SRev st false c | sh => sh end) (rc :: snd p) ;;
+        tv' <- h_alloc KThunk TThunk (copy_shape (fst p)) (rc :: snd p) ;;
         hret (ODone, [tv'])
       else
         p <- h_clone_kids tv all_kids ;;
-        tv' <- h_alloc KThunk TThunk (set_locked (fst p) false) (snd p) ;;
+        tv' <- h_alloc KThunk TThunk (copy_shape (fst p)) (snd p) ;;
         hret (ODone, [tv']))
   end.
 
